@@ -214,6 +214,17 @@ pub fn run(ctx: &Ctx) -> i32 {
             }
         }
     });
+    // the Strategies object as a state machine: every state reachable by <= 3 operations
+    super::explore_api(ctx, "state-machine", &|tree, _, obj, _, _| {
+        let held = read_profile(tree, obj)?;
+        for probs in held.iter().flat_map(|m| m.values()) {
+            let sum: f64 = probs.iter().sum();
+            if probs.iter().any(|p| !(*p >= 0.0) || !p.is_finite()) || !close(sum, 1.0, 1e-9) {
+                return Err(format!("an infoset holds {:?} (sum {})", probs, sum));
+            }
+        }
+        Ok(())
+    });
     // wide infosets with non-dyadic probabilities: uniform over k actions (k = 2..24; the
     // left-to-right sum of k copies of 1/k is just below or above 1 for many k), a linear ramp and a
     // geometric profile, each at every threshold of the derived set
@@ -246,6 +257,14 @@ pub fn run(ctx: &Ctx) -> i32 {
 pub fn replay(ctx: &Ctx, val: &serde_json::Value) -> i32 {
     let tree = Tree::from_replay(&val["tree"]);
     let prof = profile_from_json(&val["profile"]);
+    if val["api"].as_bool() == Some(true) {
+        println!("state-machine case: operations {} from the given profile; rerun the check to re-explore", val["ops"]);
+        let game = build(&tree).expect("valid game");
+        let ops = super::api::ops_from_json(&val["ops"]);
+        let res = guarded(|| super::api::replay(&game, &tree, &prof, &ops).and_then(|s| read_profile(&tree, &s)));
+        println!("object after the operations: {:?}", res);
+        return 1;
+    }
     if let Some(second) = val["second"].as_f64() {
         let ok = check_sequence(ctx, &tree, &prof, val["threshold"].as_f64().unwrap(), second);
         println!("replay {}", if ok { "passes" } else { "fails" });
